@@ -664,6 +664,9 @@ func subC(rc *kernel.RunCtx, k *kernel.Kernel) {
 	nPeerReq := 0
 	maxActions := t.Range(10, rc.Param("max_actions", 200), "max-actions")
 	wAnswer, wRelease, wCancel, wPeerReq, wNever := t.Range(1, 6, "w-answer"), t.Range(2, 8, "w-release"), t.Range(0, 3, "w-cancel"), t.Range(0, 2, "w-peerreq"), t.Range(0, 2, "w-never")
+	// the peer may hang up (its process exits): everything it sent before has been read by then
+	wHang := t.Choose(2, "w-hangup")
+	hungUp := false
 	never := map[string]bool{}
 	act := 0
 	k.Quiesce()
@@ -684,6 +687,24 @@ func subC(rc *kernel.RunCtx, k *kernel.Kernel) {
 				avail := len(w.b2a.buf)
 				iomu.Unlock()
 				if avail == 0 {
+					if !hungUp {
+						// more likely while a call has been answered and its caller has not returned yet
+						// (held at a seam on its way into, or out of, the wait for the response)
+						wh := wHang
+						w.mu.Lock()
+						for _, c := range w.calls {
+							if c.answered && !c.done {
+								wh = wHang * 8
+							}
+						}
+						w.mu.Unlock()
+						acts = append(acts, action{wh, func() {
+							k.Action("peer hangs up")
+							hungUp = true
+							k.Count("fault_peer_hangs_up", 1)
+							k.Run(p, kernel.Decision{Op: "eof"})
+						}})
+					}
 					continue
 				}
 				acts = append(acts, action{wRelease, func() {
@@ -712,6 +733,9 @@ func subC(rc *kernel.RunCtx, k *kernel.Kernel) {
 		w.mu.Unlock()
 		for _, c := range outstanding {
 			c := c
+			if hungUp {
+				break // nobody is there to answer or to be told anything
+			}
 			acts = append(acts, action{wAnswer, func() {
 				c.answered = true
 				if t.Chance(1, 4, "answer-with-error") {
@@ -770,7 +794,7 @@ func subC(rc *kernel.RunCtx, k *kernel.Kernel) {
 				k.Quiesce()
 			}})
 		}
-		if nPeerReq < 4 {
+		if nPeerReq < 4 && !hungUp {
 			acts = append(acts, action{wPeerReq, func() {
 				nPeerReq++
 				v := fmt.Sprintf("peer/%d/%d", nPeerReq, rc.Run)
@@ -833,7 +857,7 @@ func subC(rc *kernel.RunCtx, k *kernel.Kernel) {
 		if c == nil {
 			break
 		}
-		if never[c.value] || c.cancelled {
+		if never[c.value] || c.cancelled || hungUp {
 			if !c.cancelled {
 				c.cancelled = true
 				k.Count("fault_call_cancelled", 1)
@@ -867,8 +891,12 @@ func subC(rc *kernel.RunCtx, k *kernel.Kernel) {
 				rc.Fail("C18/C/wrong-response", "call %q returned the error %q", v, c.err)
 			}
 			k.Count("calls_matched", 1)
+		case hungUp && !c.answered:
+			// the peer went away without answering: the call may end with its cancellation (above)
+			// or with whatever error the connection reports
+			k.Count("calls_failed_after_peer_hung_up", 1)
 		default:
-			rc.Fail("C18/C/unexpected-call-error", "call %q (cancelled=%v) returned %v", v, c.cancelled, c.err)
+			rc.Fail("C18/C/unexpected-call-error", "call %q (cancelled=%v, answered=%v, peer hung up=%v) returned %v", v, c.cancelled, c.answered, hungUp, c.err)
 		}
 	}
 	w.mu.Unlock()
@@ -877,7 +905,7 @@ func subC(rc *kernel.RunCtx, k *kernel.Kernel) {
 			rc.Fail("C18/C/sender-order-broken", "notifications of %s arrived as %v", s, qs)
 		}
 	}
-	if len(w.peerReq) > 0 && !rc.Failed() {
+	if len(w.peerReq) > 0 && !rc.Failed() && !hungUp { // a peer that hung up is owed no replies
 		rc.Fail("C18/C/peer-request-unanswered", "requests from the peer never answered by the conn's handler: %v", w.peerReq)
 	}
 	if n := jsonrpc2.PendingLen(conn); n != 0 && !rc.Failed() {
